@@ -99,13 +99,23 @@ def parse_sx(s):
     return go()
 
 
+def _mentions(x, name):
+    if isinstance(x, list):
+        return any(_mentions(y, name) for y in x)
+    return x == name
+
+
 def strip_blocks(t):
     """tree text -> nested lists with every `(block x)` replaced by x (a hand-written expansion has `{}` where the author
-    put them; the comparison of shapes ignores them)"""
+    put them; the comparison of shapes ignores them) and every `(feed v body)` whose variable is not used dropped
+    (`self` is converted before expansion: when the only `self` of a function sits in argument code that the macro
+    discards, the expanded function keeps an unused feed, which its hand-written expansion does not have)"""
     def go(x):
         if isinstance(x, list):
             if len(x) == 2 and x[0] == "block":
                 return go(x[1])
+            if len(x) == 3 and x[0] == "feed" and not _mentions(x[2], x[1]):
+                return go(x[2])
             return [go(y) for y in x]
         return x
     return go(parse_sx(norm_none(t)))
